@@ -134,6 +134,9 @@ func (m *Machine) callBuiltin(caller *frame, pos token.Pos, fn *ssa.Builtin, arg
 		if c == nil {
 			panic(rtPanic("close of nil channel"))
 		}
+		if m.sched != nil {
+			m.blockOn(&pendingOp{kind: "yield"}) // closing a channel is a visible operation
+		}
 		if c.closed {
 			panic(rtPanic("close of closed channel"))
 		}
